@@ -166,8 +166,17 @@ func genC05Groups(r *wk.Rand, tag string, v1 bool) ([][]rig.ExecSpec, map[string
 		style = 0
 	}
 	var cur []rig.ExecSpec
+	var finished []string // run IDs of earlier groups: those runs are over, their IDs may be used again
 	for i := 0; i < n; i++ {
 		runID := fmt.Sprintf("%s-r%d", tag, i)
+		if len(finished) > 0 && r.Chance(15) {
+			runID = wk.Pick(r, finished)
+			for _, x := range cur {
+				if x.RunID == runID {
+					runID = fmt.Sprintf("%s-r%d", tag, i)
+				}
+			}
+		}
 		e := genC05Exec(r, runID, v1)
 		execs[runID] = e
 		cur = append(cur, e.spec)
@@ -182,10 +191,45 @@ func genC05Groups(r *wk.Rand, tag string, v1 bool) ([][]rig.ExecSpec, map[string
 		}
 		if flush {
 			groups = append(groups, cur)
+			for _, x := range cur {
+				finished = append(finished, x.RunID)
+			}
 			cur = nil
 		}
 	}
 	return groups, execs
+}
+
+// c05Burst: 16..24 concurrent Executes of which two thirds fail in different ways, some with to-step signals.
+func c05Burst(r *wk.Rand, tag string) ([][]rig.ExecSpec, map[string]c05Exec) {
+	execs := map[string]c05Exec{}
+	var group []rig.ExecSpec
+	n := 16 + r.Intn(9)
+	for i := 0; i < n; i++ {
+		runID := fmt.Sprintf("%s-b%d", tag, i)
+		e := c05Exec{spec: rig.ExecSpec{RunID: runID, StepID: "echo", NoSigCh: true}}
+		in := map[string]any{"nonce": runID, "n": int64(i)}
+		switch i % 6 {
+		case 0:
+			e.spec.StepID = "no-such-step"
+			e.invalid = "unknown step"
+		case 1:
+			in["n"] = "not a number"
+			e.invalid = "n is not a number"
+		case 2:
+			in["mode"] = wk.Pick(r, []string{"panic", "undeclared", "badout"})
+		case 3:
+			e.spec.StepID = "sig"
+			e.spec.NoSigCh = false
+			for k := 0; k < 3; k++ {
+				e.spec.Signals = append(e.spec.Signals, schema.Input{RunID: runID, ID: "record", InputData: map[string]any{"v": int64(k)}})
+			}
+		}
+		e.spec.Input = in
+		execs[runID] = e
+		group = append(group, e.spec)
+	}
+	return [][]rig.ExecSpec{group}, execs
 }
 
 // c05CheckResults compares every Execute result with the in-process CallStep
@@ -446,7 +490,8 @@ func chunkFn(seed uint64) func() int {
 }
 
 func runC05(c *wk.Ctx) {
-	c.Meta("rule", "generated sessions of 1..12 Execute calls (serial, fully concurrent, staggered) on the fixture plugin (3 steps; any-typed payloads of every CBOR shape incl. strings spanning read chunks; declared error output, undeclared output, non-conforming output, panicking handler; inputs the step schema rejects; to-step signals with valid and invalid data) x transports {sync, buffered, chunked(seed)} per direction x {ATP v3 real server, ATP v1 fake server (serial)} x random pauses at yield points (overlay build) and the same sessions under the race detector. Oracle: every Execute result equals CallStep on a fresh identical plugin after CBOR normalisation; offline checker over the tapped byte streams (framing, exactly one terminal message per started run, no terminal for unknown runs, nonce of the run in its own work-done, no concurrent writers). non-trivial = a session with >=2 executes or a non-sync transport; distinct = hash of the generated session")
+	rig.SendTimerStallIsVerdict = true
+	c.Meta("rule", "generated sessions of 1..12 Execute calls (serial, fully concurrent, staggered; a run ID may be used again once its run is over) on the fixture plugin (3 steps; any-typed payloads of every CBOR shape incl. strings spanning read chunks; declared error output, undeclared output, non-conforming output, panicking handler; inputs the step schema rejects; to-step signals with valid and invalid data) x transports {sync, buffered, chunked(seed)} per direction x {ATP v3 real server, ATP v1 fake server (serial)} x random pauses at yield points (overlay build) and the same sessions under the race detector. Oracle: every Execute result equals CallStep on a fresh identical plugin after CBOR normalisation; offline checker over the tapped byte streams (framing, exactly one terminal message per started run, no terminal for unknown runs, nonce of the run in its own work-done, no concurrent writers). non-trivial = a session with >=2 executes or a non-sync transport; distinct = hash of the generated session")
 	c.Meta("assumptions", []string{"handlers are pure functions of their input embedding the run's unique nonce, so results identify the run they belong to",
 		"unknown signal IDs are not generated here (C07/C11 cover them)"})
 	c.Floor("sessions", 30)
@@ -483,6 +528,15 @@ func runC05(c *wk.Ctx) {
 		tag := fmt.Sprintf("s%d", idx)
 		groups, execs := genC05Groups(r, tag, v1)
 		c2s, s2c := wk.Pick(r, modes), wk.Pick(r, modes)
+		if idx%9 == 4 {
+			// an error burst over rendezvous pipes: many calls fail at once (unknown steps, rejected inputs, failing
+			// steps) next to valid ones, with late signals - every error report travels through the plugin's small
+			// error queue while both sides have writes pending
+			v1 = false
+			groups, execs = c05Burst(r, tag)
+			c2s, s2c = rig.ModeSync, rig.ModeSync
+			c.Count("error_burst_sessions")
+		}
 		seed := r.U64()
 		var sched []rig.PauseAt
 		if rig.OverlayBuild && !v1 && len(pausePool) > 0 {
@@ -524,6 +578,20 @@ func runC05(c *wk.Ctx) {
 		switch res.Monitor.Outcome {
 		case "inconclusive":
 			c.Inconclusive(fmt.Sprintf("%v: watchdog fired; running: %v", wit, res.Monitor.Verdict.RunningDescr) + snapSummary(res.Monitor.Snap))
+			return
+		case "send-timer-stall":
+			var un []string
+			for _, e := range res.Execs {
+				if atomic.LoadInt32(&e.Returned) == 0 {
+					un = append(un, e.Spec.RunID)
+				}
+			}
+			wit["goroutines"] = res.Monitor.Snap.Detail()
+			if len(un) == 0 && res.CloseReturnedAtVerdict {
+				c.Inconclusive(fmt.Sprintf("%v: only the server's send timer is pending, but no caller is waiting", wit))
+				return
+			}
+			c.Violation("C05:callers-wait-for-the-send-timeout:"+label, fmt.Sprintf("Execute %v (Close returned: %v) wait although the connection is healthy: every goroutine is blocked and only the plugin's 60 s send timeout can still fire (both sides are blocked writing to each other)", un, res.CloseReturnedAtVerdict), wit)
 			return
 		case "deadlock":
 			var un []string
